@@ -848,6 +848,7 @@ const (
 	aggSmall = iota // |v| <= 10, len <= 12: int, int8, uint8 (v+10), float64 (v/4), float32 (v/4) and SumBy
 	aggWide         // |v| <= 1e6, len <= 200: int, int64 and SumBy
 	aggFloat        // float64 v/1000 (not exactly representable), |v| <= 1e9
+	aggBig          // |v| <= 2^60, len <= 4: int, int64 (and uint64 of |v|): beyond the 53 bits a float64 holds exactly
 	nAggKinds
 )
 
@@ -879,6 +880,17 @@ func aggGen(s pbt.Src, thorough bool) aggCase {
 			maxLen = 200
 		}
 		c.S = pbt.Seq(s, 0, maxLen, func(s pbt.Src) int { return pbt.Range(s, -1000000, 1000000) })
+	case aggBig:
+		c.S = pbt.Seq(s, 1, 4, func(s pbt.Src) int {
+			v := 1<<pbt.Range(s, 50, 60) + pbt.Range(s, -3, 3)
+			if v > 1<<60 {
+				v = 1 << 60
+			}
+			if pbt.Bool(s) {
+				return -v
+			}
+			return v
+		})
 	default:
 		c.S = pbt.Seq(s, 0, 60, func(s pbt.Src) int { return pbt.Range(s, -1000000000, 1000000000) })
 	}
@@ -1015,6 +1027,8 @@ func aggProp(c aggCase, r *pbt.R) error {
 		limit, maxLen = 1000000, 200
 	case aggFloat:
 		limit, maxLen = 1000000000, 200
+	case aggBig:
+		limit, maxLen = 1<<60, 4
 	}
 	if len(c.S) > maxLen {
 		r.Label("outside the overflow-free domain (not checked)")
@@ -1051,6 +1065,14 @@ func aggProp(c aggCase, r *pbt.R) error {
 		if err == nil {
 			err = aggSumBy(c.S)
 		}
+	case aggBig:
+		if err = aggInts(mapTo(c.S, idOf), "int"); err == nil {
+			err = aggInts(mapTo(c.S, func(v int) int64 { return int64(v) }), "int64")
+		}
+		if err == nil {
+			err = aggInts(mapTo(c.S, func(v int) uint64 { return uint64(absInt(v)) }), "uint64")
+		}
+		r.Label("values beyond 2^53")
 	default:
 		err = aggFloats(mapTo(c.S, func(v int) float64 { return float64(v) / 1000 }), "float64")
 	}
@@ -1699,7 +1721,7 @@ func TestProp(t *testing.T) {
 		&pbt.Check[aggCase]{
 			Name: "aggregate",
 			Rule: "Sum/Mean against an int64 (integers) or float64 (floats) reference, SumBy with 2v, v*v, 1, float64(v)/4 and len(text). Domain: Mean only on non-empty slices; magnitudes bounded so that no sum can overflow the element type " +
-				"(int8: |v|<=10, len<=12; uint8: v+10); integer Mean may be any integer less than 1 away from sum/len; floats within 1e-9 (float32: 1e-5) of the reference relative to the sum of magnitudes; no NaN/Inf. " +
+				"(int8: |v|<=10, len<=12; uint8: v+10; 64-bit integers also with |v| up to 2^60 on up to 4 elements, where a detour through float64 loses bits); integer Mean may be any integer less than 1 away from sum/len; floats within 1e-9 (float32: 1e-5) of the reference relative to the sum of magnitudes; no NaN/Inf. " +
 				"Enumerated: every slice up to length 6 (thorough 8) over {-2,-1,0,1,3}, each run as int, int8, uint8, float64 (v/4), float32 (v/4); random: small (|v|<=10), wide ints (|v|<=1e6, up to 60 (200) elements, int and int64), inexact float64 (v/1000). " +
 				"Non-trivial = two or more elements.",
 			Enum: aggEnum, Gen: aggGen, Prop: aggProp, OutOfEnum: aggOut,
